@@ -100,6 +100,30 @@ theorem failure_iff_failed (package timeString : Bytes) (flt : Option Filter) (t
         if t.info.willRun then (firstFail t.info t.acts).map failureMessage else none := by
   rw [one_testcase_per_test_in_order, List.map_map]; rfl
 
+/-- Obligation over the regenerated member-initialiser lists of src/CppUTest/TestFailure.cpp: the
+    `file:line` of a failure element are those of the failure — the given location for the
+    constructors that take one (and for `FailFailure`), the test's own file and line for
+    `TestFailure(test, message)` (leak plugin, mock failures, plugins), "no message" where none is given. -/
+theorem failure_location_is_the_failures (t : TestInfo) (f : Bytes) (l : Nat) (m : Bytes) :
+    failureMessage (locMsgFailure t f l m) = f ++ lit ":" ++ fmtInt (castInt l) ++ lit ": " ++ m ∧
+    failureMessage (exitFailure t f l m) = f ++ lit ":" ++ fmtInt (castInt l) ++ lit ": " ++ m ∧
+    failureMessage (locFailure t f l) = f ++ lit ":" ++ fmtInt (castInt l) ++ lit ": " ++ lit "no message" ∧
+    failureMessage (msgFailure t m) = t.file ++ lit ":" ++ fmtInt (castInt t.line) ++ lit ": " ++ m := by
+  simp [failureMessage, locMsgFailure_file, locMsgFailure_line, locMsgFailure_message, exitFailure_file, exitFailure_line,
+    exitFailure_message, locFailure_file, locFailure_line, locFailure_message, msgFailure_file, msgFailure_line,
+    msgFailure_message]
+
+/-- What "first failure" means for a scripted test: the first failure its body reports (whichever
+    constructor builds it), else the first one added by the plugin's post-test action. -/
+theorem first_failure_cases (t : TestInfo) (f : Bytes) (l : Nat) (m : Bytes) (as : List Act) :
+    firstFail t (.fail f l m :: as) = some (locMsgFailure t f l m) ∧
+    firstFail t (.failExit f l m :: as) = some (exitFailure t f l m) ∧
+    firstFail t (.failMsg m :: as) = some (msgFailure t m) ∧
+    firstFail t (.failLoc f l :: as) = some (locFailure t f l) ∧
+    firstFail t [.postFail m] = some (msgFailure t m) ∧
+    firstFail t [] = none := by
+  simp [firstFail, testBodyEvs, actEvs, postEvs, evsFirst]
+
 /-- An ignored test never has a failure, so its element shows the skipped marker. -/
 theorem ignored_shows_marker (sc : Script) (c : Case) (h : caseKey c = scriptKey sc) (hi : sc.info.willRun = false) :
     c.failure = none ∧ c.skipped = true := by
@@ -184,20 +208,20 @@ theorem report_reader_roundtrip_partial (package timeString : Bytes) (evs : List
 
 /-! ## non-vacuity -/
 
-/-- two groups; a test failing twice (the first failure is kept), an ignored test, a passing test
-    that prints; names with every character that has XML meaning -/
+/-- two groups; a test failing twice (the first failure is kept), an ignored test, a test
+    that prints and gets a failure without location from a plugin; names with every character that has XML meaning -/
 def demo : List Script :=
   [ { info := { group := lit "gr\"p<1>", name := lit "na&me", file := lit "dir/a\"b.cpp", line := 10, willRun := true },
       acts := [.checks 2, .tick 1234, .fail (lit "o<t>.cpp") 3 (lit "x\ny & \"z\""), .failExit (lit "dir/a\"b.cpp") 12 (lit "second")] },
     { info := { group := lit "gr\"p<1>", name := lit "ign", file := lit "dir/a\"b.cpp", line := 20, willRun := false }, acts := [] },
     { info := { group := lit "G2", name := lit "ok", file := lit "f.cpp", line := 1, willRun := true },
-      acts := [.print (lit "f.cpp") 2 (lit "<hello> & \r\n")] } ]
+      acts := [.print (lit "f.cpp") 2 (lit "<hello> & \r\n"), .postFail (lit "leak <1>")] } ]
 
 example : (files (lit "p/k") (lit "T") (runAll none demo)).map (·.name) =
     [lit "cpputest_p_k_gr_p_1_.xml", lit "cpputest_p_k_G2.xml"] := by decide
 
 example : ((reports (lit "p/k") (lit "T") (runAll none demo)).map fun r => (r.2.tests, r.2.failures, r.2.cases.length)) =
-    [(2, 1, 2), (1, 0, 1)] := by decide
+    [(2, 1, 2), (1, 1, 1)] := by decide
 
 example : scanAttr none (encodeXmlText (lit "a\"b<c>&d\n") ++ 34 :: lit " next") [] = some (lit "a\"b<c>&d\n", lit " next") := by
   decide
